@@ -654,6 +654,22 @@ func genC20OddArtifact(r *Rng) *Plan {
 	if keyFamily(target.KeyAlg) == "rsa" {
 		fp.P8 = "null"
 	}
+	if r.Chance(1, 5) {
+		// not an odd certificate but an unusual, valid *key* encoding: every way the PKCS#8 / SEC 1
+		// structure may be written (curve named outside, inside or both; scalar at its fixed length,
+		// with leading zeros dropped or with one or two extra zero octets; optional public key absent,
+		// uncompressed, compressed or hybrid; RSA with or without NULL parameters)
+		fp = ForeignParams{Parts: Pick(r, []string{"key", "cert+key", "cert+key", "key+csr"}), Str: "printable", KeyAlg: target.KeyAlg,
+			P8: Pick(r, []string{"outer", "both", "inner"}), Pad: Pick(r, []string{"fixed", "stripped", "extra", "extra2"}), Pub: r.Bool()}
+		if fp.Pub {
+			fp.PubForm = Pick(r, []string{"", "compressed", "hybrid"})
+		}
+		if keyFamily(target.KeyAlg) == "rsa" {
+			fp.P8 = Pick(r, []string{"null", "noparams"})
+		}
+		kind = "key-form:" + fp.P8 + "/" + fp.Pad + "/" + fp.PubForm
+		g.P.Meta["odd"] = kind
+	}
 	g.P.Add(Op{K: "replace-art", Ent: target.ID, Arg: fp.JSON(), Label: "odd:" + kind})
 	if r.Bool() {
 		// force children to be re-issued under it
